@@ -7,6 +7,7 @@ import HpxVerif.Lemmas.SqrtApprox5
 import HpxVerif.Lemmas.SqrtApprox4
 import Mathlib.Tactic.Ring
 import Mathlib.Tactic.Linarith
+import HpxVerif.Lemmas.NoBmi
 
 set_option autoImplicit false   -- an unknown identifier in a statement is an error, never a new variable
 
@@ -248,5 +249,65 @@ theorem ring_scheme_same_cells_unconditional (debug : Bool) (cfg : Cfg) (hb : cf
       Ring.centerOfProjectedCell (α := ℝ) debug (2 ^ d) r = Hash.centerOfProjectedCell (α := ℝ) cfg d h ∧
       Ring.center (α := ℝ) debug (2 ^ d) r = Hash.center (α := ℝ) cfg d h) :=
   Hpx.SqrtApprox.ring_scheme_same_cells debug cfg hb d hd
+
+
+/-! ## every build: the statements above that carry `cfg.bmi = false`, for every `cfg` (LUT tables or BMI2) -/
+
+section AnyBuild
+open Hpx Hpx.Layer Hpx.LayerBmi Hpx.BmiTransfer
+
+theorem ring_center_agrees_any_build (debug : Bool) (cfg : Cfg) (d : Nat) (hd : d ≤ 29)
+    (hA : RingBij.ApproxOK (firstHashInEqr d)) (r : Nat) (hr : r < 12 * 4 ^ d) (h : Nat)
+    (hf : fromRing cfg d r = some h) :
+    Ring.centerOfProjectedCell (α := ℝ) debug (2 ^ d) r = Hash.centerOfProjectedCell (α := ℝ) cfg d h := by
+  rw [centerOfProjectedCell_noBmi]
+  exact Hpx.C10.ring_center_agrees debug (noBmi cfg) (noBmi_bmi cfg) d hd hA r hr h (by rw [← LayerBmi.fromRing_eq]; exact hf)
+
+theorem ring_center_sphere_agrees_any_build (debug : Bool) (cfg : Cfg) (d : Nat) (hd : d ≤ 29)
+    (hA : RingBij.ApproxOK (firstHashInEqr d)) (r : Nat) (hr : r < 12 * 4 ^ d) (h : Nat)
+    (hf : fromRing cfg d r = some h) :
+    Ring.center (α := ℝ) debug (2 ^ d) r = Hash.center (α := ℝ) cfg d h := by
+  rw [center_noBmi]
+  exact Hpx.C10.ring_center_sphere_agrees debug (noBmi cfg) (noBmi_bmi cfg) d hd hA r hr h
+    (by rw [← LayerBmi.fromRing_eq]; exact hf)
+
+theorem ring_scheme_same_cells_any_build (debug : Bool) (cfg : Cfg) (hA : RingBij.ApproxOK (2 ^ 60))
+    (d : Nat) (hd : d ≤ 29) :
+    (∀ r, r < 12 * 4 ^ d → ∃ h, fromRing cfg d r = some h ∧ h < 12 * 4 ^ d ∧
+      Ring.centerOfProjectedCell (α := ℝ) debug (2 ^ d) r = Hash.centerOfProjectedCell (α := ℝ) cfg d h ∧
+      Ring.center (α := ℝ) debug (2 ^ d) r = Hash.center (α := ℝ) cfg d h) ∧
+    (∀ h, h < 12 * 4 ^ d → ∃ r, toRing cfg d h = some r ∧ r < 12 * 4 ^ d ∧
+      Ring.centerOfProjectedCell (α := ℝ) debug (2 ^ d) r = Hash.centerOfProjectedCell (α := ℝ) cfg d h ∧
+      Ring.center (α := ℝ) debug (2 ^ d) r = Hash.center (α := ℝ) cfg d h) := by
+  have := Hpx.C10.ring_scheme_same_cells debug (noBmi cfg) (noBmi_bmi cfg) hA d hd
+  simpa only [← LayerBmi.fromRing_eq, ← LayerBmi.toRing_eq, ← centerOfProjectedCell_noBmi, ← center_noBmi] using this
+
+theorem ring_vertices_agree_any_build (debug : Bool) (cfg : Cfg) (d : Nat) (hd : d ≤ 29)
+    (hA : RingBij.ApproxOK (firstHashInEqr d)) (r : Nat) (hr : r < 12 * 4 ^ d) (h : Nat)
+    (hf : fromRing cfg d r = some h) :
+    Ring.vertices (α := ℝ) debug (2 ^ d) r = Hash.vertices (α := ℝ) cfg d h := by
+  rw [vertices_noBmi]
+  exact Hpx.C10.ring_vertices_agree debug (noBmi cfg) (noBmi_bmi cfg) d hd hA r hr h (by rw [← LayerBmi.fromRing_eq]; exact hf)
+
+theorem ring_sphCoo_agree_any_build (debug : Bool) (cfg : Cfg) (d : Nat) (hd : d ≤ 29)
+    (hA : RingBij.ApproxOK (firstHashInEqr d)) (r : Nat) (hr : r < 12 * 4 ^ d) (h : Nat)
+    (hf : fromRing cfg d r = some h) (dx dy : ℝ) :
+    Ring.sphCoo (α := ℝ) debug (2 ^ d) r dx dy = Hash.sphCoo (α := ℝ) cfg d h dx dy := by
+  rw [sphCoo_noBmi]
+  exact Hpx.C10.ring_sphCoo_agree debug (noBmi cfg) (noBmi_bmi cfg) d hd hA r hr h (by rw [← LayerBmi.fromRing_eq]; exact hf)
+    dx dy
+
+theorem ring_scheme_same_cells_unconditional_any_build (debug : Bool) (cfg : Cfg) (d : Nat) (hd : d ≤ 29) :
+    (∀ r, r < 12 * 4 ^ d → ∃ h, fromRing cfg d r = some h ∧ h < 12 * 4 ^ d ∧
+      Ring.centerOfProjectedCell (α := ℝ) debug (2 ^ d) r = Hash.centerOfProjectedCell (α := ℝ) cfg d h ∧
+      Ring.center (α := ℝ) debug (2 ^ d) r = Hash.center (α := ℝ) cfg d h) ∧
+    (∀ h, h < 12 * 4 ^ d → ∃ r, toRing cfg d h = some r ∧ r < 12 * 4 ^ d ∧
+      Ring.centerOfProjectedCell (α := ℝ) debug (2 ^ d) r = Hash.centerOfProjectedCell (α := ℝ) cfg d h ∧
+      Ring.center (α := ℝ) debug (2 ^ d) r = Hash.center (α := ℝ) cfg d h) :=
+  ring_scheme_same_cells_any_build debug cfg Hpx.C10.approx_ok d hd
+
+/-- non-vacuity: a BMI2 configuration at depth 3 -/
+example := ring_scheme_same_cells_unconditional_any_build true { debug := true, bmi := true } 3 (by omega)
+end AnyBuild
 
 end Hpx.C10
